@@ -187,6 +187,17 @@ def _assigned(stmts, spec):
     return out
 
 
+def _only_logging(stmts):
+    """statements that only write log output (calls of logging.*, loops over such calls)"""
+    for st in stmts:
+        if isinstance(st, ast.Expr) and isinstance(st.value, ast.Call) and ast.unparse(st.value.func).startswith("logging."):
+            continue
+        if isinstance(st, ast.For) and not st.orelse and _only_logging(st.body):
+            continue
+        return False
+    return True
+
+
 def _has_ctrl(stmts, kinds, spec):
     """does the block contain a control transfer of one of `kinds` at this loop level (Return: any level)"""
     for s in stmts:
@@ -483,7 +494,7 @@ class Translator:
                 rhs = ["if %s then %s else %s" % (self.test(s.test), tb_[0], eb[0])]
             return self.bind_tuple(live, rhs, self.block(rest, k, defined))
         if isinstance(s, ast.Try) and sp.try_passthrough and not s.orelse and not s.finalbody and \
-                all(len(h.body) == 1 and isinstance(h.body[-1], ast.Raise) or (len(h.body) == 2 and isinstance(h.body[-1], ast.Raise)) for h in s.handlers):
+                all(isinstance(h.body[-1], ast.Raise) and (len(h.body) <= 2 or _only_logging(h.body[:-1])) for h in s.handlers):
             self.dropped.append("except-handlers that only re-raise: " + ", ".join(ast.unparse(h.type) if h.type else "bare" for h in s.handlers))
             return self.block(list(s.body) + rest, k, defined)
         if isinstance(s, ast.Try) and sp.try_handlers and sp.except_mode and len(s.handlers) == 1 and not s.orelse and not s.finalbody:
